@@ -142,9 +142,9 @@ theorem crash_atomic (C : Crypto) (hC : HashWF C) (hS : SignWF C) (hTw : TreeWF 
   obtain ⟨hrep, hf, a0, es, hp⟩ := history_invariants_reopen C hC hS hTw steps c _ {} _ {} [] h2 h3 hok
   refine ⟨c, j, h1, ?_⟩
   rcases crash_step C hC hS hTw _ _ hf a0 _ es hrep hp op hv hl k with ⟨hf', a0', es', hd⟩ | ⟨hf', a0', es', hd⟩
-  · obtain ⟨c', jo, ho, hr⟩ := durable_open C hC hTw _ hf' a0' es' _ hd
+  · obtain ⟨c', jo, ho, hr⟩ := durable_open C hC hTw _ hf' a0' es' _ hd.toDurable0
     exact ⟨c', jo, ho, Or.inl hr⟩
-  · obtain ⟨c', jo, ho, hr⟩ := durable_open C hC hTw _ hf' a0' es' _ hd
+  · obtain ⟨c', jo, ho, hr⟩ := durable_open C hC hTw _ hf' a0' es' _ hd.toDurable0
     exact ⟨c', jo, ho, Or.inr hr⟩
 
 /-- the recovered core stays usable: every further sequence of calls behaves like the abstract log it
